@@ -24,9 +24,12 @@ number and length of chunks / lines, any nesting depth):
                               function, closed a function (appending the function statement), or was merged into the
                               preceding `include` statement; `block_lines_move_the_stack` adds what the block lines do
                               to the block stack
-* `prepend_shifts_line_partial` comment / blank chunks in front: same outcome with every reported line number moved by
-                              the number of physical lines put in front (`_partial`: the "simple valid statement" prefix
-                              of the design is covered by the implementation-side oracle only, see below)
+* `prepend_shifts_line_partial` comment / blank chunks in front: same outcome (model or error) with every reported line
+                              number moved by the number of physical lines put in front (`_partial` only because the
+                              other half of the design statement is the separate theorem below)
+* `prepend_statements_shift`  simple valid statement lines in front (assignment, expression statement, label, jump,
+                              return): rejected iff rejected, same error text / line text / column, line number moved
+                              by the number of lines; `prepend_statements_acceptance`
 * `start_line_offsets`        `start_line_number + d` ⇒ same outcome, line number `+ d`
 * `caret_under_same_char`, `caret_in_range`, `caret_row` (in `C06Caret.lean`)   the formatted message
 -/
@@ -34,10 +37,8 @@ number and length of chunks / lines, any nesting depth):
 namespace C06
 open Text Scan Lower Parser
 
-/-- the error of a result, if any (to state examples about `Except` values whose success type has no `DecidableEq`) -/
-def errOf {α : Type} : Except ParserError α → Option ParserError
-  | .error e => some e
-  | .ok _ => none
+/-! `errOf r` (in `C06Lemmas`) is the error of a result, if any: examples and `prepend_statements_shift` are stated with
+it because the success type `List Stmt` has no `DecidableEq`. -/
 
 /-! ## 1. totality -/
 
@@ -154,8 +155,9 @@ theorem error_position (chunks : List String) (start : Nat) (e : ParserError)
           simp at this
         · cases h
 
-/-- `if a +:` → Syntax error at column 7 (the `:`… no: the end of `a +`), line 1; the hypotheses of `error_position`
-are inhabited by an expression error inside an `if`, at the right offset inside the *line* (F5) -/
+/-- `if a +:` → Syntax error, line 1, column 7: the expression `a +` starts at offset 3 of the line and the expression
+parser stops at its end (column 4 of the expression).  The hypotheses of `error_position` are inhabited by an expression
+error inside an `if`, at the right offset inside the *line* (F5). -/
 example : errOf (parseScript ["if a +:"] 1) = some ⟨"Syntax error", "if a +:", 7, 1⟩ := by decide
 
 /-- a missing `endif` is reported at the line of the `if` (line 2: a comment line comes first) -/
@@ -173,6 +175,42 @@ example : errOf (parseScript ["a = 1\nwhile a < \\\n   3 +:\n  a = 2\nendwhile"]
 /-- `endfunction` with an open block reports the block's opening line -/
 example : errOf (parseScript ["function f():", "for x in y:", "endfunction"] 1) =
     some ⟨"Missing endfor statement", "for x in y:", 1, 2⟩ := by decide
+
+theorem stepAll_error_kind (start : Nat) : ∀ (ll : List (Nat × String)) (s : St) (e : ParserError),
+    stepAll start s ll = .error e → ExprMsg e.error ∨ e.column = 1
+  | [], _, _, h => by cases h
+  | (ix, line) :: rest, s, e, h => by
+      simp only [stepAll] at h
+      split at h
+      · exact stepAll_error_kind start rest _ e h
+      · rename_i e1 h1; cases h; exact stepLogical_error_kind h1
+
+/-- **error_kinds**: every error is an expression error (`Syntax error` / `Unmatched parenthesis`, column as in
+`error_position`), a dangling continuation, or a block-structure error — and those always have column 1. -/
+theorem error_kinds (chunks : List String) (start : Nat) (e : ParserError) (h : parseScript chunks start = .error e) :
+    e.error = "Syntax error" ∨ e.error = "Unmatched parenthesis" ∨ e.error = Text.unterminated ∨ e.column = 1 := by
+  unfold parseScript at h
+  simp only at h
+  split at h
+  · rename_i e1 h1
+    cases h
+    rcases stepAll_error_kind start _ _ _ h1 with (h2 | h2) | h2
+    · exact .inl h2
+    · exact .inr (.inl h2)
+    · exact .inr (.inr (.inr h2))
+  · rename_i s h1
+    unfold finishAll at h
+    split at h
+    · rename_i d hd
+      cases h
+      unfold Text.scriptLines Text.logicalLinesCore at hd
+      simp only [Option.map_eq_some_iff] at hd
+      obtain ⟨x, _, rfl⟩ := hd
+      exact .inr (.inr (.inl rfl))
+    · repeat' split at h
+      all_goals first | (cases h; exact .inr (.inr (.inr rfl))) | cases h
+
+example : errOf (parseScript ["x = 1", "  else:"] 1) = some ⟨"No matching if statement", "  else:", 1, 2⟩ := by decide
 
 /-- **first_error_wins**: if the logical lines before `(ix, line)` are processed without error and `(ix, line)` fails,
 that failure is the result — whatever follows. -/
@@ -367,8 +405,8 @@ increased by the number of physical lines put in front: same model on success; o
 text and column.
 
 `_partial`: DESIGN §9 also lists "simple valid statement" lines as prefix.  Such a prefix changes the emitted statements
-(and the recorded jump positions of `if` entries), so the statement is not an equation of outcomes; that half is checked
-by the implementation-side oracle `prepend-shifts-line-number` / `prepend-keeps-acceptance` only. -/
+(and the recorded jump positions of `if` entries), so that half is not an equation of outcomes; it is the separate
+theorem `prepend_statements_shift` below (equation of the *errors*). -/
 theorem prepend_shifts_line_partial (pre lines : List String) (start : Nat)
     (hpre : ∀ l ∈ pre.flatMap Text.splitLines, Text.isComment l = true) :
     parseScript (pre ++ lines) start = shiftR (pre.flatMap Text.splitLines).length (parseScript lines start) := by
@@ -392,11 +430,76 @@ theorem prepend_shifts_line_single (pre lines : List String) (start : Nat)
   have := prepend_shifts_line_partial pre lines start (by rw [hsplit]; exact hpre)
   rwa [hsplit] at this
 
+theorem errOf_shiftR {α : Type} (d : Nat) (r : Except ParserError α) : errOf (shiftR d r) = (errOf r).map (shiftE d) := by
+  cases r <;> rfl
+
+/-- **prepend_statements_shift** (the "simple valid statement" half of DESIGN's `prepend_shifts_line`): chunks put in
+front that are *simple valid statements* (`SimpleLine`: one physical line, not a comment, no continuation backslash,
+classified without error as assignment / expression statement / label / jump / return) do not change whether the
+script is rejected, and if it is, the error has the same text, line text and column, and its line number is increased by
+the number of lines put in front.  (The accepted model differs, of course: it starts with the new statements.) -/
+theorem prepend_statements_shift (pre lines : List String) (start : Nat) (hpre : ∀ p ∈ pre, SimpleLine p) :
+    errOf (parseScript (pre ++ lines) start) = (errOf (parseScript lines start)).map (shiftE pre.length) := by
+  obtain ⟨psP, h1, h2⟩ := stepAll_simple start (numbered 0 pre) PState.init {}
+    (fun x hx => hpre _ (numbered_mem _ _ _ hx)) sync_init
+  have hsync : Sync (psP, {}) := by
+    have ht := abs_defs_length h2
+    have hf := abs_func_isSome h2
+    constructor
+    · simpa [PState.init] using ht.symm
+    · simpa [PState.init] using hf.symm
+  have key : errOf (parseScript (pre ++ lines) start) =
+      errOf (parseFrom (start + pre.length) (psP, {}) (Text.scriptLines lines).1 (Text.scriptLines lines).2) := by
+    rw [parseScript_eq_parseFrom, scriptLines_prepend_simple pre lines hpre]
+    unfold parseFrom
+    simp only [stepAll_append, h1, stepAll_reindex]
+    cases h : stepAll (start + pre.length) (psP, {}) (Text.scriptLines lines).1 with
+    | error e => rfl
+    | ok s' => simp only [finishAll_reindex start _ s' (stepAll_sync _ _ _ _ hsync h)]
+  rw [key, parseFrom_sim0 (start + pre.length) (psP, {}) (PState.init, {}) h2 rfl, ← parseScript_eq_parseFrom,
+    start_line_offsets, errOf_shiftR]
+
+/-- acceptance is unchanged by such a prefix -/
+theorem prepend_statements_acceptance (pre lines : List String) (start : Nat) (hpre : ∀ p ∈ pre, SimpleLine p) :
+    (∃ m, parseScript (pre ++ lines) start = .ok m) ↔ (∃ m, parseScript lines start = .ok m) := by
+  have h := prepend_statements_shift pre lines start hpre
+  cases h1 : parseScript (pre ++ lines) start <;> cases h2 : parseScript lines start <;>
+    simp [h1, h2, errOf] at h ⊢
+
 /-- non-vacuity: three comment/blank lines in front of a script with an error in its second line -/
 example :
     (∀ l ∈ ["# header", "", "   \t"], '\n' ∉ l.toList) ∧ (∀ l ∈ ["# header", "", "   \t"], Text.isComment l = true) ∧
     errOf (parseScript ["a = 1", "b = a +"] 1) = some ⟨"Syntax error", "b = a +", 8, 2⟩ ∧
     errOf (parseScript (["# header", "", "   \t"] ++ ["a = 1", "b = a +"]) 1) = some ⟨"Syntax error", "b = a +", 8, 5⟩ := by
   decide
+
+/-- the line `zz = 1` and the line `systemLog('m')` are simple valid statements -/
+theorem simple_examples : SimpleLine "zz = 1" ∧ SimpleLine "systemLog('m')" := by
+  refine ⟨⟨by decide, by decide, by decide, ?_⟩, ⟨by decide, by decide, by decide, ?_⟩⟩
+  · cases h : Scan.classify ExprParse.parseExpr "zz = 1" with
+    | ok cl =>
+      refine ⟨cl, rfl, ?_⟩
+      have : (match Scan.classify ExprParse.parseExpr "zz = 1" with | .ok cl => IsEmit cl | .error _ => false) = true := by
+        decide
+      rw [h] at this; exact this
+    | error e =>
+      have : (match Scan.classify ExprParse.parseExpr "zz = 1" with | .ok cl => IsEmit cl | .error _ => false) = true := by
+        decide
+      rw [h] at this; cases this
+  · cases h : Scan.classify ExprParse.parseExpr "systemLog('m')" with
+    | ok cl =>
+      refine ⟨cl, rfl, ?_⟩
+      have : (match Scan.classify ExprParse.parseExpr "systemLog('m')" with
+          | .ok cl => IsEmit cl | .error _ => false) = true := by decide
+      rw [h] at this; exact this
+    | error e =>
+      have : (match Scan.classify ExprParse.parseExpr "systemLog('m')" with
+          | .ok cl => IsEmit cl | .error _ => false) = true := by decide
+      rw [h] at this; cases this
+
+/-- non-vacuity of `prepend_statements_shift`: two statements in front of a script with an unclosed `while` -/
+example : errOf (parseScript ["while a:", "b = 1"] 1) = some ⟨"Missing endwhile statement", "while a:", 1, 1⟩ ∧
+    errOf (parseScript (["zz = 1", "systemLog('m')"] ++ ["while a:", "b = 1"]) 1) =
+      some ⟨"Missing endwhile statement", "while a:", 1, 3⟩ := by decide
 
 end C06
